@@ -11,6 +11,7 @@ func (fc *fnCtx) checkAssigns(st *State, pos token.Pos) {
 	env := fc.envAt(fc.entry, fc.entry)
 	allowedHeap := map[string]bool{}
 	allowedKeys := map[string][]string{}
+	condHeap := map[string][]string{} // heaps that may change entirely, but only under a condition
 	for _, a := range fc.con.Assigns {
 		tg := fc.assignTarget(env, a)
 		switch tg.kind {
@@ -30,11 +31,20 @@ func (fc *fnCtx) checkAssigns(st *State, pos token.Pos) {
 			}
 		case "heap":
 			for _, h := range tg.heaps {
-				allowedHeap[h] = true
+				if tg.cond != "" && tg.cond != "true" {
+					condHeap[h] = append(condHeap[h], tg.cond)
+				} else {
+					allowedHeap[h] = true
+				}
 			}
 		case "loc":
 			for i, h := range tg.heaps {
-				allowedKeys[h] = append(allowedKeys[h], tg.keys[i])
+				k := tg.keys[i]
+				if tg.cond != "" && tg.cond != "true" {
+					// encoded as: loc may equal k only if cond held
+					k = "(ite " + tg.cond + " " + k + " (Sub (R 0) (- 1)))"
+				}
+				allowedKeys[h] = append(allowedKeys[h], k)
 			}
 		}
 	}
@@ -49,6 +59,9 @@ func (fc *fnCtx) checkAssigns(st *State, pos token.Pos) {
 		loc := fc.sc.Fresh("frameloc")
 		fc.sc.Decl(loc, nil, "Ref")
 		hyp := []string{App("<", App("ageR", loc), fc.entry.alloc)}
+		for _, c := range condHeap[h] {
+			hyp = append(hyp, Not(c))
+		}
 		for _, k := range allowedKeys[h] {
 			hyp = append(hyp, Not(Eq(loc, k)))
 		}
